@@ -67,7 +67,9 @@ class CompositeFrontend(ConstrainedFrontend):
 
     def __setstate__(self, s):
         self._solvers, self._template_frontend, self._unsat, self._track, base_state = s
-        self._owned_solvers = weakref.WeakSet(self._solver_list)
+        # which children were this solver's own is not pickled, and a copy of this solver unpickled from the same pickle
+        # has the same children: none of them may be changed in place
+        self._owned_solvers = weakref.WeakSet()
         # which children had been checked is not pickled: consider none of them checked
         self._unchecked_solvers = weakref.WeakSet(self._solver_list)
         super().__setstate__(base_state)
